@@ -26,10 +26,10 @@ type csumCase struct {
 	serializeError string
 }
 
-func addrTypeFor(n int, rng *rand.Rand) slayers.AddrType {
+func addrTypeFor(n int, svc bool) slayers.AddrType {
 	switch n {
 	case 4:
-		if rng.Intn(2) == 0 {
+		if svc {
 			return slayers.T4Svc
 		}
 		return slayers.T4Ip
@@ -165,23 +165,49 @@ func runCsum(n int) {
 	}
 	alens := []int{4, 16, 8, 12}
 	perm := rng.Perm(len(lens))
+	type spec struct {
+		plen, sl, dl, kind int  // kind 0: udp, 1..9: scmpKinds
+		svc                bool // 4-byte addresses are service addresses
+	}
+	var specs []spec
 	for i, plen := range lens {
-		c := &csumCase{}
 		// all 16 address-length combinations and all 10 upper-layer kinds rotate against the lengths
 		j := perm[i]
-		sl, dl := alens[j%4], alens[(j/4)%4]
-		if k := j % 10; k == 0 {
+		k := j % 10
+		if i%3 == 0 {
+			k = 0
+		}
+		specs = append(specs, spec{plen, alens[j%4], alens[(j/4)%4], k, rng.Intn(2) == 0})
+	}
+	// directed: service and 16-byte addresses x odd upper-layer lengths (odd payload for UDP's 8-byte and the
+	// SCMP headers alike), UDP and SCMP
+	odd := []int{1, 3, 5, 33, 255, 257, 1231, 8999}
+	if !vt.Thorough() {
+		odd = []int{1, 33, 257, 8999}
+	}
+	for ai, a := range [][2]int{{4, 16}, {16, 4}, {16, 16}, {4, 4}} {
+		for oi, plen := range odd {
+			specs = append(specs, spec{plen, a[0], a[1], (ai + oi) % 2 * (1 + (ai+oi)%9), true})
+		}
+	}
+	for i, sp := range specs {
+		c := &csumCase{}
+		plen, sl, dl := sp.plen, sp.sl, sp.dl
+		if sp.kind == 0 {
 			c.kind, c.proto, c.ckoff = "udp", int(slayers.L4UDP), 6
 		} else {
-			c.kind, c.proto, c.ckoff = scmpKinds[k-1], int(slayers.L4SCMP), 2
-		}
-		if i%3 == 0 {
-			c.kind, c.proto, c.ckoff = "udp", int(slayers.L4UDP), 6
+			c.kind, c.proto, c.ckoff = scmpKinds[sp.kind-1], int(slayers.L4SCMP), 2
 		}
 		c.src, c.dst = make([]byte, sl), make([]byte, dl)
 		rng.Read(c.src)
 		rng.Read(c.dst)
-		c.srcT, c.dstT = addrTypeFor(sl, rng), addrTypeFor(dl, rng)
+		c.srcT, c.dstT = addrTypeFor(sl, sp.svc), addrTypeFor(dl, sp.svc)
+		if sp.svc && sl == 4 {
+			copy(c.src, []byte{0, byte(1 + rng.Intn(2)), 0, 0}) // DS / CS in the upper 16 bits, zero padding
+		}
+		if sp.svc && dl == 4 {
+			copy(c.dst, []byte{0x80, byte(1 + rng.Intn(2)), 0, 0}) // multicast flag set
+		}
 		c.srcIA, c.dstIA = addr.IA(rng.Uint64()), addr.IA(rng.Uint64())
 		switch rng.Intn(8) {
 		case 0:
